@@ -88,7 +88,10 @@ def run(res):
         ops = gen_history(f, rng, corrupt)
         qs.append("rhist %s %d %s" % (f["dt"], limit, " ".join(ops))); meta.append((f, limit, ops, corrupt))
     ia = lib.run_impl(qs)
-    ma = lib.run_model(qs)
+    # histories over corrupted files: a mutant may declare millions of zero-bit numbers, which the
+    # list-based model cannot produce in reasonable time; such lines are left to the oracle
+    ma = lib.run_model(qs, line_timeout=30)
+    res.count("model_timeouts", sum(1 for m in ma if m == "modeltimeout"))
     obad, kbad, proto_bad = [], [], []
     delq, delmeta = [], []
     for q, a, m, (f, limit, ops, corrupt) in zip(qs, ia, ma, meta):
@@ -108,7 +111,7 @@ def run(res):
             if failed and idx != prev:
                 obad.append((q, a, "failed call %s moved bit_idx %d -> %d" % (op, prev, idx))); break
             prev = idx
-        if a != m:
+        if a != m and m != "modeltimeout":
             kbad.append((q, a, m))
         if rng.random() < (0.25 if not thorough else 0.1):
             for (i, dq) in deletion_queries(f["dt"], limit, ops, outs)[:3]:
